@@ -7,6 +7,7 @@ pub mod comps;
 pub mod shapes;
 pub mod queries;
 pub mod qfamily;
+pub mod sched;
 
 use brood::{
     entity,
@@ -128,6 +129,8 @@ pub struct Driver {
     pub nev: usize,
     pub dead: bool,
     pub light: bool,
+    /// write-ahead file: the op about to be executed (so that a crash can be attributed)
+    pub wal: Option<String>,
 }
 
 #[derive(Serialize, Deserialize)]
@@ -135,7 +138,7 @@ struct Dummy;
 
 impl Driver {
     pub fn new(out: Box<dyn Write>) -> Self {
-        Driver { ws: (0..MAXW).map(|_| None).collect(), out, nev: 0, dead: false, light: false }
+        Driver { ws: (0..MAXW).map(|_| None).collect(), out, nev: 0, dead: false, light: false, wal: None }
     }
 
     pub fn slot(&mut self, w: usize) -> &mut Slot {
@@ -160,6 +163,12 @@ impl Driver {
         for i in 0..n {
             if self.ws[i].is_none() {
                 ws.push(json!({"live": false}));
+                continue;
+            }
+            if self.light {
+                // structure only: reads the allocator and table headers, never a row
+                let s = self.ws[i].as_ref().unwrap();
+                ws.push(json!({"live": true, "dump": dump_json(&s.world)}));
                 continue;
             }
             let mut eqs = Vec::new();
@@ -195,8 +204,20 @@ impl Driver {
             }
             for (k, id) in targets.iter().enumerate() {
                 let con = s.world.contains(*id);
-                let ent = s.world.entry(*id).is_some();
-                probes.insert(ids(*id), json!({"con": con, "ent": ent, "ee": eprobes[k]}));
+                let mut via = Map::new();
+                let ent = match s.world.entry(*id) {
+                    Some(mut e) => {
+                        // which entity does the identifier land on? (tokens seen through the entry)
+                        if let Some(result!(ps, pw, ph)) = e.query(Query::<Views!(Option<&S>, Option<&W>, Option<&H>)>::new()) {
+                            if let Some(x) = ps { via.insert("S".into(), json!(x.obs().t)); }
+                            if let Some(x) = pw { via.insert("W".into(), json!(x.obs().t)); }
+                            if let Some(x) = ph { via.insert("H".into(), json!(x.obs().t)); }
+                        }
+                        true
+                    }
+                    None => false,
+                };
+                probes.insert(ids(*id), json!({"con": con, "ent": ent, "ee": eprobes[k], "via": Value::Object(via)}));
             }
             ws.push(json!({
                 "live": true,
@@ -235,6 +256,9 @@ impl Driver {
         if !m.contains_key("res") {
             m.insert("res".into(), json!({}));
         }
+        if self.light {
+            m.insert("light".into(), json!(true));
+        }
         serde_json::to_writer(&mut self.out, &ev).unwrap();
         self.out.write_all(b"\n").unwrap();
         self.out.flush().unwrap();
@@ -243,6 +267,9 @@ impl Driver {
 
     /// Execute one scripted operation and emit its event. Returns false if the history must stop.
     pub fn exec(&mut self, op: &Value) -> bool {
+        if let Some(p) = &self.wal {
+            let _ = std::fs::write(p, op.to_string());
+        }
         let mut ev = op.clone();
         let name = op["op"].as_str().unwrap().to_string();
         let w = op.get("w").and_then(|x| x.as_u64()).unwrap_or(0) as usize;
